@@ -25,6 +25,7 @@ ANCHORS = ["gcp.handles:gaussian", "gcp.handles:gaussian_grad", "gcp.handles:ber
            "gcp.fg:evaluate", "gcp.fg_est:estimate", "gcp.fg_est:estimate_helper", "tensor:tensor.mttkrps", "tensor:mttv_left", "tensor:mttv_mid"]
 EXHAUSTIVE = {"quick": {"objectives x extra-parameter values": "complete (10 losses, 4 beta exponents, 3 Huber thresholds, 3 trial counts)"},
               "thorough": {"objectives x extra-parameter values": "complete"}}
+STRIDED_ARGS = True   # a quarter of the cases pass every array argument as a strided, non-contiguous view (core.Ctx.begin)
 WATCHDOG = {"quick": 600, "thorough": 3000}
 
 LOSSES = [
